@@ -3,6 +3,7 @@
 #include <cassert>
 #include <condition_variable>
 #include <deque>
+#include <exception>
 #include <future>
 #include <mutex>
 #include <nano/arch.h>
@@ -181,9 +182,26 @@ public:
     {
         if (size() == 1 || elements <= 1)
         {
+            // NB: same semantics as the multi-threaded path: all elements are processed and
+            //     the first exception is re-thrown at the end only if requested.
+            std::exception_ptr eptr;
             for (tsize index = 0; index < elements; ++index)
             {
-                op(index, 0U);
+                try
+                {
+                    op(index, 0U);
+                }
+                catch (...)
+                {
+                    if (!eptr)
+                    {
+                        eptr = std::current_exception();
+                    }
+                }
+            }
+            if (raise && eptr)
+            {
+                std::rethrow_exception(eptr);
             }
         }
         else
@@ -217,9 +235,26 @@ public:
 
         if (size() == 1 || chunksize >= elements)
         {
+            // NB: same semantics as the multi-threaded path: all chunks are processed and
+            //     the first exception is re-thrown at the end only if requested.
+            std::exception_ptr eptr;
             for (tsize begin = 0; begin < elements; begin += chunksize)
             {
-                op(begin, std::min(begin + chunksize, elements), 0U);
+                try
+                {
+                    op(begin, std::min(begin + chunksize, elements), 0U);
+                }
+                catch (...)
+                {
+                    if (!eptr)
+                    {
+                        eptr = std::current_exception();
+                    }
+                }
+            }
+            if (raise && eptr)
+            {
+                std::rethrow_exception(eptr);
             }
         }
         else
